@@ -47,7 +47,8 @@ Inductive ccase :=
 | CUntar (c : cfg) (dir : str) (es : list entry) (before : fs) (res : N) (after : fs)
 | CZipDir (t : tree) (seen : list entry)
 | CFirstFile (c : cfg) (file : str) (es : list entry) (before : fs) (res : N) (after : fs)
-| CTarZip (dir : str) (names_in names_out : list str).
+| CTarZip (dir : str) (names_in names_out : list str)
+| CTarZipFull (dir : str) (zip_entries tar_entries : list entry).
 
 Definition check_case (c : ccase) : bool :=
   match c with
@@ -77,6 +78,7 @@ Definition check_case (c : ccase) : bool :=
          | _, _ => false
          end)
         (map (fun n => if is_empty dir then n else path_join [dir; n]) names_in) names_out
+  | CTarZipFull dir zes tes => entries_eqb (tar_zip dir zes) tes
   end.
 
 Fixpoint mismatches_from (i : nat) (cs : list ccase) : list nat :=
